@@ -412,7 +412,7 @@ def run_property(mod, tier: str, seed: int, replay: str | None = None) -> int:
         cnt = total.viol.get(sig, [0])[0]
         print(
             f"KNOWN-FINDING: property={prop_id} {sig} - {entry['what']} "
-            f"(observed in {cnt} cases of this run)"
+            f"(observed {cnt} times in this run)"
         )
 
     # 4. unknown signatures -> shrink -> replay file -> VIOLATION
